@@ -15,25 +15,25 @@ CONSTANTS Prog,      \* <<ops of worker 1, ops of worker 2, ...>>
 
 VARIABLES gi,        \* index of the group being explored
           fs,        \* the shared file system
-          loc        \* loc[w]: local state of worker w of the group
+          loc,       \* loc[w]: local state of worker w of the group
+          ser,       \* (constant during a behaviour) the tree left by running the group serially
+          alo        \* (constant during a behaviour) alo[w]: what w observes when it runs alone
 
-vars == <<gi, fs, loc>>
+vars == <<gi, fs, loc, ser, alo>>
 Grp == GroupSeq[gi]
 Ws  == SeqRange(Grp)
 
-(* what each worker does and sees when it runs alone on an empty tree (the situation its   *)
-(* operation list was recorded in), and the result of running each group serially; both    *)
-(* are built eagerly, once, as tuples                                                      *)
-RECURSIVE MkAlone(_)
-MkAlone(n) == IF n = 0 THEN <<>> ELSE Append(MkAlone(n - 1), RunW(EmptyFs, L0, n, Prog[n]))
-Alone == MkAlone(Len(Prog))
-RECURSIVE MkSerial(_)
-MkSerial(n) == IF n = 0 THEN <<>> ELSE Append(MkSerial(n - 1), RunSeq(EmptyFs, GroupSeq[n], Prog, <<>>))
-Serial == MkSerial(Len(GroupSeq))
+(* The serial run of the group and the run of each member alone on an empty tree (the      *)
+(* situation its operation list was recorded in) are computed once per group, in Init,     *)
+(* with the same step function the interleaving uses (TLC does not cache recursive         *)
+(* constant operators, hence variables).                                                   *)
+Alone(w) == RunW(EmptyFs, L0, w, Prog[w])
 
 Init == /\ gi \in 1..Len(GroupSeq)
         /\ fs = EmptyFs
         /\ loc = [w \in SeqRange(GroupSeq[gi]) |-> L0]
+        /\ ser = RunSeq(EmptyFs, GroupSeq[gi], Prog, <<>>)
+        /\ alo = [w \in SeqRange(GroupSeq[gi]) |-> Alone(w).l]
 
 Cur(w) == Prog[w][loc[w].pc]
 
@@ -43,7 +43,7 @@ Act(w, kinds) ==
   /\ LET r == StepOp(fs, loc[w], w, Cur(w)) IN
      /\ fs' = r.fs
      /\ loc' = [loc EXCEPT ![w] = r.l]
-  /\ UNCHANGED gi
+  /\ UNCHANGED <<gi, ser, alo>>
 
 (* one action per kind of step of the code: directory creation (makedirs in cli.py's        *)
 (* output_*_test_case(s)), file creation / writing / closing (open(..., "w"/"wb"),          *)
@@ -68,10 +68,12 @@ AllDone == \A w \in Ws : Done(loc[w], Prog[w])
 \* no operation of any worker fails, whatever the others did in between
 NoOpFails == \A w \in Ws : loc[w].fail = ""
 \* when all workers have finished the tree is the tree of the serial run
-FinalIsSerial == AllDone => fs = Serial[gi].fs
+FinalIsSerial == AllDone => fs = ser.fs
 \* validity of the extracted operation lists: whatever a worker observes of the tree (own
 \* read-backs, stand-alone existence tests, listings) is what it observed when it ran alone
-ObsStable == \A w \in Ws : IsPrefix(loc[w].obs, Alone[w].l.obs)
-\* sanity (assumptions of the extraction, not the property): each worker alone succeeds
-AloneOk == \A w \in 1..Len(Prog) : Alone[w].l.fail = "" /\ Done(Alone[w].l, Prog[w])
+ObsStable == \A w \in Ws : IsPrefix(loc[w].obs, alo[w].obs)
+\* sanity (assumptions of the extraction, not the property): each worker alone succeeds, and
+\* so does the serial run
+AloneOk == /\ \A w \in Ws : alo[w].fail = "" /\ Done(alo[w], Prog[w])
+           /\ \A w \in Ws : ser.ls[w].fail = ""
 =============================================================================
